@@ -244,7 +244,11 @@ func runAckCase(work string, c *AckCase) {
 					w.poll()
 					if x := w.log[i].w; x != nil && x.inc == w.inc && x.res != nil && *x.res == nil {
 						// DIRECT ORACLE: no acknowledgement while the local apply of the entry is still running
-						fail("", fmt.Sprintf("write %v acknowledged before its local apply completed", x.b))
+						sig := ""
+						if first, ok := w.seenPid[x.pid]; ok && first < x.inc {
+							sig = "C05-proposeid-reuse" // acknowledged by the entry of an earlier incarnation with the same id
+						}
+						fail(sig, fmt.Sprintf("write %v acknowledged before its local apply completed", x.b))
 						x.index = -1
 					}
 					// DIRECT ORACLE: the snapshot-index candidate never runs ahead of the entries applied to the shard
